@@ -166,16 +166,25 @@ def _info(H, args, machine, event, state, source, target, kwargs):
 
 def make_action(cbid, group, is_async, free):
     """One generated action/validator callback.  Body: begin record, scripted yields, injected fault,
-    scripted nested sends (each with a marker before and a record of what it returned), end record, scripted return."""
+    scripted nested sends (each with a marker before and a record of what it returned), end record, scripted return.
+    When the provider object carries `_prov` (several listeners of one class) the callback id uses that provider name."""
+    return _make_action(cbid, group, is_async, free)
 
-    def pre(args, machine, event, state, source, target, kwargs):
+
+def _resolve(cbid, obj):
+    prov = getattr(obj, "_prov", None)
+    return cbid if prov is None else cbid.split("@")[0] + "@" + prov
+
+
+def _make_action(cbid0, group, is_async, free):
+    def pre(cbid, args, machine, event, state, source, target, kwargs):
         Hh = machine.H
         occ = Hh.occ[cbid]
         Hh.occ[cbid] += 1
         Hh.log.append(("B", cbid, occ, _info(Hh, args, machine, event, state, source, target, kwargs)))
         return Hh, occ
 
-    def maybe_fault(Hh, occ):
+    def maybe_fault(cbid, Hh, occ):
         if Hh.fault == (cbid, occ) or (group == "validators" and Hh.val.get(cbid)):
             Hh.log.append(("X", cbid, occ))
             exc = Boom(cbid, occ)
@@ -184,13 +193,13 @@ def make_action(cbid, group, is_async, free):
 
     if is_async:
 
-        async def body(args, machine, event, state, source, target, kwargs):
-            Hh, occ = pre(args, machine, event, state, source, target, kwargs)
+        async def body(cbid, args, machine, event, state, source, target, kwargs):
+            Hh, occ = pre(cbid, args, machine, event, state, source, target, kwargs)
             script = Hh.sends[cbid].get(occ, ())
             if not (Hh.sends[cbid] and Hh.no_sender_yields):
                 for _ in range(Hh.yields[cbid]):
                     await asyncio.sleep(0)
-            maybe_fault(Hh, occ)
+            maybe_fault(cbid, Hh, occ)
             for i, (ev, a, kw) in enumerate(script):
                 Hh.log.append(("S", cbid, occ, i))
                 try:
@@ -207,16 +216,16 @@ def make_action(cbid, group, is_async, free):
         if free:
 
             async def cb(*args, machine, event, state, source, target, **kwargs):
-                return await body(args, machine, event, state, source, target, kwargs)
+                return await body(cbid0, args, machine, event, state, source, target, kwargs)
         else:
 
             async def cb(self, *args, machine, event, state, source, target, **kwargs):
-                return await body(args, machine, event, state, source, target, kwargs)
+                return await body(_resolve(cbid0, self), args, machine, event, state, source, target, kwargs)
     else:
 
-        def body(args, machine, event, state, source, target, kwargs):
-            Hh, occ = pre(args, machine, event, state, source, target, kwargs)
-            maybe_fault(Hh, occ)
+        def body(cbid, args, machine, event, state, source, target, kwargs):
+            Hh, occ = pre(cbid, args, machine, event, state, source, target, kwargs)
+            maybe_fault(cbid, Hh, occ)
             for i, (ev, a, kw) in enumerate(Hh.sends[cbid].get(occ, ())):
                 Hh.log.append(("S", cbid, occ, i))
                 try:
@@ -231,19 +240,20 @@ def make_action(cbid, group, is_async, free):
         if free:
 
             def cb(*args, machine, event, state, source, target, **kwargs):
-                return body(args, machine, event, state, source, target, kwargs)
+                return body(cbid0, args, machine, event, state, source, target, kwargs)
         else:
 
             def cb(self, *args, machine, event, state, source, target, **kwargs):
-                return body(args, machine, event, state, source, target, kwargs)
+                return body(_resolve(cbid0, self), args, machine, event, state, source, target, kwargs)
 
     return cb
 
 
-def make_guard(cbid, kind, is_async):
+def make_guard(cbid0, kind, is_async):
     if kind == "property":
 
         def fget(self):
+            cbid = _resolve(cbid0, self)
             self.H.log.append(("G", cbid))
             return self.H.val.get(cbid, False)
 
@@ -251,11 +261,13 @@ def make_guard(cbid, kind, is_async):
     if is_async:
 
         async def g(self, *args, machine, **kwargs):
+            cbid = _resolve(cbid0, self)
             machine.H.log.append(("G", cbid))
             return machine.H.val.get(cbid, False)
     else:
 
         def g(self, *args, machine, **kwargs):
+            cbid = _resolve(cbid0, self)
             machine.H.log.append(("G", cbid))
             return machine.H.val.get(cbid, False)
 
@@ -289,9 +301,12 @@ class Rendered:
         else the library default; with it, `model` is the user object (may be falsy). Returns (sm, H)."""
         Hh = Hh or self.new_H()
         objs = {}
+        same = self.spec.get("same_class", {})
         for prov, pcls in self.provider_classes.items():
             o = pcls()
             o.H = Hh
+            if prov in same or prov in same.values():
+                o._prov = prov
             objs[prov] = o
         Hh.objs = objs
         if model_given:
@@ -322,9 +337,10 @@ def render(spec, *, state_factory=None):
 
     funcs = {}  # cbid -> function object (for func/deco/ method placement)
     prov_ns = {}  # provider -> namespace dict
+    same = spec.get("same_class", {})
     for c in cbs:
         cid = cbid_of(c)
-        if cid in funcs:
+        if cid in funcs or c["prov"] in same:
             continue
         prov = c["prov"]
         free = c["attach"] == "func"
@@ -335,6 +351,8 @@ def render(spec, *, state_factory=None):
         if not free:
             prov_ns.setdefault(prov, {})[c["name"]] = fn
     for g in guards:
+        if g["prov"] in same:
+            continue
         cid = cbid_of(g)
         fn = make_guard(cid, g.get("kind", "method"), g.get("async", False))
         _name(fn, g["name"], f"{cname}_{g['prov']}.{g['name']}")
@@ -412,9 +430,16 @@ def render(spec, *, state_factory=None):
     for prov, pns in prov_ns.items():
         pname = f"{cname}_{prov}"
         pns = dict(pns, __module__=__name__, __qualname__=pname)
+        if spec.get("eq_listeners") and prov != "model":
+            # value-equal listener objects (e.g. frozen dataclasses): equality must not be mistaken for identity
+            pns["__eq__"] = lambda a, b: type(a) is type(b)
+            pns["__hash__"] = lambda a: 7
         pcls = type(pname, (), pns)
         setattr(HARNESS_MODULE, pname, pcls)
         pclasses[prov] = pcls
+    for twin, orig in same.items():
+        if orig in pclasses:
+            pclasses[twin] = pclasses[orig]
     return Rendered(spec, cls, pclasses, uid)
 
 
